@@ -47,7 +47,7 @@ def _tlc_job(job):
 
 
 def spans_part(chk, tier, seed):
-    nbeh = 2000 if tier == "quick" else 60000
+    nbeh = 2000 if tier == "quick" else 30000
     exh = ["q1", "q2"] if tier == "quick" else ["q1", "q2", "t1", "t2", "t3"]
     jobs = []
     for c in exh:
@@ -90,7 +90,7 @@ def spans_part(chk, tier, seed):
         chk.add_tlc(res, f"Spans {job[0]} ({job[2]})")
         n = 0
         # the largest exhaustive configuration is replayed on a seeded sample
-        keep = 0.2 if job[2] == "MC_Spans_t2.cfg" else 1.0
+        keep = 0.1 if job[2] == "MC_Spans_t2.cfg" else 1.0
         for s in res.lines("SCRIPT"):
             n += 1
             if keep < 1.0 and r.random() >= keep:
@@ -367,9 +367,9 @@ def render_part(chk, tier, seed, failing, crop, stdlib, scratch):
     for g in sorted(groups):
         lst = groups[g]
         if g.startswith("fam/"):
-            k = 1 if tier == "quick" else 12
+            k = 1 if tier == "quick" else 5
         else:
-            k = 40 if tier == "quick" else 600
+            k = 40 if tier == "quick" else 250
         chosen += r.sample(lst, min(len(lst), k))
     plan = []      # (prog, res, known, t)
     for f in chains:
@@ -598,7 +598,8 @@ def apalache_finish(chk, h):
         text = f.read()
     wall = round(time.time() - t0, 1)
     if rc == 0 and "The outcome is: NoError" in text:
-        chk.extra["apalache"] = {"outcome": "NoError", "wall_s": wall,
+        m = re.search(r"Total time: ([0-9.]+) sec", text)
+        chk.extra["apalache"] = {"outcome": "NoError", "wall_s": float(m.group(1)) if m else wall,
                                  "what": "SpansArith.tla: Inv (round trip of pack/unpack and of the context lookup "
                                          "for 3 contexts) over unbounded integers, all initial states and one step"}
     elif "The outcome is: Error" in text or rc == 12:
